@@ -439,6 +439,8 @@ pub fn run_history(g: &Gillham, col: &mut Collector, h: &History, upto: usize) -
                 continue;
             }
             Op::Prune(t) => {
+                // survivors must be untouched down to the last field: full Debug of every record before/after
+                let before: std::collections::BTreeMap<u32, String> = planes.iter().map(|(k, v)| (icao_u32(k), format!("{v:?}"))).collect();
                 let r = mon::guarded(|| planes.prune(*t));
                 if let Err((loc, msg)) = r {
                     col.add(Finding { prop: "C01".into(), sig: format!("C01|panic_prune|{loc}"), detail: msg, input: history_json(h) });
@@ -446,6 +448,14 @@ pub fn run_history(g: &Gillham, col: &mut Collector, h: &History, upto: usize) -
                 }
                 let snap = snapshot(&planes);
                 dis = model.prune(*t, &snap);
+                for (k, v) in planes.iter() {
+                    let a = icao_u32(k);
+                    match before.get(&a) {
+                        Some(b) if *b == format!("{v:?}") => {}
+                        Some(b) => dis.push(vref::tracker::Disagreement { prop: "C15", clause: "survivor_changed", detail: format!("addr {a:06x}: record changed by prune({t}): before {b} after {v:?}") }),
+                        None => dis.push(vref::tracker::Disagreement { prop: "C15", clause: "prune_created_record", detail: format!("addr {a:06x} appeared during prune({t})") }),
+                    }
+                }
                 col.count("prunes", 1);
             }
             Op::Frame(m) => {
@@ -457,6 +467,8 @@ pub fn run_history(g: &Gillham, col: &mut Collector, h: &History, upto: usize) -
                 let before_tracked = if let Event::Es { addr, .. } = &ev { model.record_exists(*addr) } else { true };
                 let rx = h.receiver;
                 let range = h.max_range;
+                // a frame of another downlink format must change nothing at all (clock is frozen)
+                let before_non_es = if ev == Event::NonEs && h.kind != "crowd" { Some(format!("{planes:?}")) } else { None };
                 let res = mon::guarded(|| planes.action(frame, rx, range));
                 let added = match res {
                     Ok(a) => a == Added::Yes,
@@ -476,6 +488,14 @@ pub fn run_history(g: &Gillham, col: &mut Collector, h: &History, upto: usize) -
                 } else {
                     let snap = snapshot_opt(&planes, h.kind != "marathon" || idx % 64 == 0 || idx + 1 == h.ops.len());
                     dis = model.step(&ev, added, &snap);
+                }
+                if let Some(b) = before_non_es {
+                    col.count("non_es_full_state_comparisons", 1);
+                    let after = format!("{planes:?}");
+                    if after != b {
+                        let i = b.bytes().zip(after.bytes()).take_while(|(x, y)| x == y).count();
+                        dis.push(vref::tracker::Disagreement { prop: "C12", clause: "non_es_changed_state", detail: format!("a frame of another downlink format ({}) changed the tracker: ...{} -> ...{}", hex(m), &b[i.saturating_sub(60)..(i + 60).min(b.len())], &after[i.saturating_sub(60)..(i + 60).min(after.len())]) });
+                    }
                 }
                 col.count("tracker_steps", 1);
                 match &ev {
